@@ -51,6 +51,8 @@ Qed.
 
 Lemma str_cmp_refl s : str_cmp s s = Eq.
 Proof. now apply str_cmp_eq. Qed.
+Lemma ostr_cmp_refl s : ostr_cmp s s = Eq.
+Proof. now apply ostr_cmp_eq. Qed.
 
 Lemma contig_rank_decides (c : cfg) a b na nb :
   contigs c <> [] ->
@@ -62,7 +64,7 @@ Proof.
   unfold okeyK, ochr, clt, ccls_cmp. destruct (contigs c) as [|x l] eqn:Ec; [congruence|].
   intros _ -> -> Hb. simpl.
   destruct (by_barcodes c).
-  - destruct Hb as [Hb|(-> & ->)]; [discriminate|]. simpl. rewrite !str_cmp_refl.
+  - destruct Hb as [Hb|(-> & ->)]; [discriminate|]. simpl. rewrite !ostr_cmp_refl.
     split; [apply Nat.compare_lt_iff|]. split; [intros E; now injection E|now intros ->].
   - simpl. split; [apply Nat.compare_lt_iff|]. split; [intros E; now injection E|now intros ->].
 Qed.
